@@ -21,6 +21,7 @@ type C03Case struct {
 	Map    Cfg     `json:"map"`            // forest for MapPollard.Verify
 	Part   Cfg     `json:"part"`           // partial forest for VerifyPartialProof (remembers Blocks[].Rem)
 	High   uint64  `json:"high,omitempty"` // stand-alone Verify also runs on the state embedded under High
+	Deep   int     `json:"deep,omitempty"` // >0: the state is one tree of 2^Deep leaves with only leaf 0's path known (see deepView); overrides Blocks
 	Tuple  Tuple   `json:"tuple"`
 }
 
@@ -43,6 +44,14 @@ func genStateBlocks(t *rapid.T, lim limits) ([]Block, *model.Forest) {
 }
 
 func genC03(t *rapid.T) C03Case {
+	if rapid.IntRange(0, 7).Draw(t, "deepstate") == 0 {
+		c := C03Case{Map: Cfg{Kind: "map"}, Part: Cfg{Kind: "map"}}
+		c.Deep = rapid.SampledFrom([]int{1, 2, 5, 8, 16, 31, 32, 33, 40, 47, 62, 63}).Draw(t, "deep")
+		df, dv := deepView(c.Deep)
+		hostileRows = []int{63, c.Deep + 1}
+		c.Tuple = genHostileTuple(t, df, dv, false, false)
+		return c
+	}
 	lim := tierLimits()
 	if !thorough() {
 		lim.maxLeaves, lim.maxBlocks = 48, 6
@@ -89,8 +98,77 @@ func falseClaims(targets []uint64, hs []Hash, truth func(pos uint64, h Hash) boo
 	return bad
 }
 
+// runC03Deep: soundness on the deep single-tree state (a light client's view of 2^Deep leaves):
+// Verify against the one-root stump and a map forest started from that root.
+func runC03Deep(c C03Case, res *Result) *Result {
+	if c.Deep < 1 || c.Deep > 63 {
+		return res.failf("case error: deep %d", c.Deep)
+	}
+	f, v := deepView(c.Deep)
+	hs, proof, err := tupleToArgs(c.Tuple, f, v)
+	if err != nil {
+		return res.failf("case error: %v", err)
+	}
+	if len(hs) != len(proof.Targets) {
+		return res.failf("case error: C03 tuples have as many hashes as targets")
+	}
+	for _, h := range hs {
+		if h == (Hash{}) {
+			res.class("zero-claimed-hash(outside hypothesis)")
+			return res
+		}
+	}
+	res.class(fmt.Sprintf("state:deep-%d", c.Deep))
+	// truth: the external layout (Deep rows) or, for the map forest, its own 63-row layout
+	at63 := map[uint64]Hash{}
+	for p, h := range v.At {
+		if q, ok := model.Translate(p, v.R, 63); ok {
+			at63[q] = h
+		}
+	}
+	ext := func(pos uint64, h Hash) bool { return claimTrue(v, pos, h) }
+	both := func(pos uint64, h Hash) bool {
+		w, ok := at63[pos]
+		return claimTrue(v, pos, h) || (ok && w == h)
+	}
+	stump := u.Stump{Roots: cloneHashes(v.Roots), NumLeaves: v.N}
+	budget := 10000 + 1000*(len(hs)+len(proof.Proof)+len(proof.Targets))
+	try := func(who string, fn func() error, truth func(uint64, Hash) bool) *Result {
+		var verr error
+		if e := guarded(budget, func() { verr = fn() }); e != nil {
+			res.class("panic-or-loop(C04)")
+			return nil
+		}
+		if verr != nil {
+			return nil
+		}
+		res.count("accepted", 1)
+		if bad := falseClaims(proof.Targets, hs, truth); len(bad) > 0 {
+			return res.failf("%s accepted a false claim on one tree of 2^%d leaves (leaf 0 and its path known): %v (targets %v hashes %s, %d proof hashes)", who, c.Deep, bad, proof.Targets, shortHs(hs), len(proof.Proof))
+		}
+		return nil
+	}
+	if r := try("Verify", func() error { _, e := u.Verify(copyStump(stump), cloneHashes(hs), cloneProof(proof)); return e }, ext); r != nil {
+		return r
+	}
+	m := u.NewMapPollardFromRoots(cloneHashes(v.Roots), v.N, false)
+	if r := try("MapPollard(from roots).Verify", func() error { return m.Verify(cloneHashes(hs), cloneProof(proof), false) }, both); r != nil {
+		return r
+	}
+	if r := try("MapPollard(from roots).VerifyPartialProof", func() error {
+		return m.VerifyPartialProof(cloneU64(proof.Targets), cloneHashes(hs), cloneHashes(proof.Proof), false)
+	}, both); r != nil {
+		return r
+	}
+	res.NonTrivial = !isHonest(c.Tuple, f, v)
+	return res
+}
+
 func runC03(c C03Case) *Result {
 	res := &Result{}
+	if c.Deep != 0 {
+		return runC03Deep(c, res)
+	}
 	cfgs := []Cfg{{Kind: "pollard"}, c.Map, c.Part}
 	ls := newLockstep(cfgs)
 	for i, b := range c.Blocks {
